@@ -101,6 +101,9 @@ type ReplayFile struct {
 
 func writeReplay(rf *ReplayFile) string {
 	dir := filepath.Join(verifDir(), "replays")
+	if d := os.Getenv("VERIF_REPLAY_DIR"); d != "" {
+		dir = d
+	}
 	os.MkdirAll(dir, 0755)
 	name := fmt.Sprintf("%s-%s-%d-%s.json", rf.Property, sanitize(rf.Violation.Class), rf.BaseSeed, time.Now().UTC().Format("20060102T150405.000"))
 	p := filepath.Join(dir, name)
@@ -139,7 +142,11 @@ type Evidence struct {
 }
 
 func writeEvidence(e *Evidence) {
-	p := filepath.Join(verifDir(), "evidence", e.PropertyID+".json")
+	dir := filepath.Join(verifDir(), "evidence")
+	if d := os.Getenv("VERIF_EVIDENCE_DIR"); d != "" { // sensitivity runs against broken variants must not touch the real evidence
+		dir = d
+	}
+	p := filepath.Join(dir, e.PropertyID+".json")
 	if err := writeJSON(p, e); err != nil {
 		infraFail("cannot write evidence: %v", err)
 	}
